@@ -29,7 +29,7 @@ Print Assumptions wrapper_only.
 Theorem nonfamily_only_at_unguarded_sites :
   forall (V : variant) (R : registry) (cl : blackbox) (strictext refuse : bool) (dec : decoder) (x : jvalue) (ac io : bool) (version : option ustring),
   reg_known R = true ->
-  (forall io' n v e, cl io' n v = CleanRaise e -> is_exception e = true) ->
+  (forall ac' io' sl ov e, cl ac' io' sl ov = CleanRaise e -> is_exception e = true) ->
   forall e s, In (Exc e s) (parse V R (clean_via cl) strictext refuse dec x ac io version) -> family e = false -> V s = false.
 Proof.
   intros V R cl strictext refuse dec x ac io version HR Hcl e s Hin Hf.
@@ -42,7 +42,7 @@ Print Assumptions nonfamily_only_at_unguarded_sites.
 Theorem family_only :
   forall (V : variant) (R : registry) (cl : blackbox) (strictext refuse : bool) (dec : decoder) (x : jvalue) (ac io : bool) (version : option ustring),
   all_guarded V -> reg_known R = true ->
-  (forall io' n v e, cl io' n v = CleanRaise e -> is_exception e = true) ->
+  (forall ac' io' sl ov e, cl ac' io' sl ov = CleanRaise e -> is_exception e = true) ->
   forall e s, In (Exc e s) (parse V R (clean_via cl) strictext refuse dec x ac io version) -> family e = true.
 Proof.
   intros V R cl strictext refuse dec x ac io version HV HR Hcl e s Hin.
@@ -54,7 +54,7 @@ Print Assumptions family_only.
 Theorem family_only_parse_observable :
   forall (V : variant) (R : registry) (cl : blackbox) (strictext refuse : bool) (dec : decoder) (x vr : jvalue) (ac io : bool) (version : option ustring),
   all_guarded V -> reg_known R = true ->
-  (forall io' n v e, cl io' n v = CleanRaise e -> is_exception e = true) ->
+  (forall ac' io' sl ov e, cl ac' io' sl ov = CleanRaise e -> is_exception e = true) ->
   forall e s, In (Exc e s) (parse_observable V R (clean_via cl) strictext refuse dec x vr ac io version) -> family e = true.
 Proof.
   intros V R cl strictext refuse dec x vr ac io version HV HR Hcl e s Hin.
@@ -68,7 +68,7 @@ Theorem family_only_dict_to_stix2 :
   forall (V : variant) (R : registry) (cl : blackbox) (strictext refuse : bool) (dec : decoder) (d : jvalue) (nonstr ac io : bool)
          (version : option ustring),
   all_guarded V -> reg_known R = true ->
-  (forall io' n v e, cl io' n v = CleanRaise e -> is_exception e = true) ->
+  (forall ac' io' sl ov e, cl ac' io' sl ov = CleanRaise e -> is_exception e = true) ->
   forall e s, In (Exc e s) (dict_to_stix2 V R (clean_via cl) strictext refuse dec d nonstr ac io version) -> family e = true.
 Proof.
   intros V R cl strictext refuse dec d nonstr ac io version HV HR Hcl e s Hin.
@@ -81,7 +81,7 @@ Print Assumptions family_only_dict_to_stix2.
 Theorem family_only_parse_file :
   forall (V : variant) (R : registry) (cl : blackbox) (strictext refuse : bool) (dec : decoder) (tr : textres) (ac io : bool) (version : option ustring),
   all_guarded V -> reg_known R = true ->
-  (forall io' n v e, cl io' n v = CleanRaise e -> is_exception e = true) ->
+  (forall ac' io' sl ov e, cl ac' io' sl ov = CleanRaise e -> is_exception e = true) ->
   forall e s, In (Exc e s) (parse_file V R (clean_via cl) strictext refuse dec tr ac io version) -> family e = true.
 Proof.
   intros V R cl strictext refuse dec tr ac io version HV HR Hcl e s Hin.
@@ -94,7 +94,7 @@ Print Assumptions family_only_parse_file.
 Theorem family_only_construct :
   forall (V : variant) (R : registry) (cl : blackbox) (strictext : bool) (dec : decoder) (c : cls) (ac io : bool) (kw : list (ustring * jvalue)),
   all_guarded V -> reg_known R = true -> cls_known c = true ->
-  (forall io' n v e, cl io' n v = CleanRaise e -> is_exception e = true) ->
+  (forall ac' io' sl ov e, cl ac' io' sl ov = CleanRaise e -> is_exception e = true) ->
   forall e s, In (Exc e s) (construct V R (clean_via cl) strictext dec c ac io kw) -> family e = true.
 Proof.
   intros V R cl strictext dec c ac io kw HV HR Hc Hcl e s Hin.
@@ -120,7 +120,7 @@ Print Assumptions family_only_evaluated_model.
    subclass re-raised by the wrapper where the evaluated set has InvalidValueError *)
 Theorem evaluated_model_covers_every_cleaner :
   forall (V : variant) (R : registry) (cl : blackbox) (strictext refuse : bool) (dec : decoder) (x : jvalue) (ac io : bool) (version : option ustring),
-  (forall io' n v e, cl io' n v = CleanRaise e -> is_exception e = true) ->
+  (forall ac' io' sl ov e, cl ac' io' sl ov = CleanRaise e -> is_exception e = true) ->
   forall r, In r (parse V R (clean_via cl) strictext refuse dec x ac io version) ->
   exists r', In r' (parse V R clean_any strictext refuse dec x ac io version) /\
              (r = r' \/ exists e, r = Exc e S_lib /\ subclass e K_InvalidValueError = true /\
@@ -130,6 +130,35 @@ Proof.
   exact (cov_parse V R _ _ strictext refuse (cov_clean_via_any cl Hcl) dec x ac io version r Hr).
 Qed.
 Print Assumptions evaluated_model_covers_every_cleaner.
+
+(* the structural cleaner (embedded-object and list-of-embedded-object slots constructed with this same model, to any
+   depth `fuel`), which is what the correspondence run evaluates: non-family outcomes only at unguarded sites, and
+   every outcome is one the coarse evaluation has as well *)
+Theorem structural_model_family_only :
+  forall (fuel : nat) (V : variant) (R : registry) (classes : list (string * cls)) (strictext refuse : bool) (dec : decoder)
+         (x : jvalue) (ac io : bool) (version : option ustring),
+  reg_known R = true ->
+  forall e s, In (Exc e s) (parse V R (clean_struct fuel V R strictext classes) strictext refuse dec x ac io version) ->
+  family e = false -> V s = false.
+Proof.
+  intros fuel V R classes strictext refuse dec x ac io version HR e s Hin Hf.
+  eapply ok_nonfamily_site; [|exact Hin|exact Hf].
+  apply ok_parse; [intros; apply ok_clean_struct|exact HR].
+Qed.
+Print Assumptions structural_model_family_only.
+
+Theorem structural_model_refines_coarse :
+  forall (fuel : nat) (V : variant) (R : registry) (classes : list (string * cls)) (strictext refuse : bool) (dec : decoder)
+         (x : jvalue) (ac io : bool) (version : option ustring) r,
+  In r (parse V R (clean_struct fuel V R strictext classes) strictext refuse dec x ac io version) ->
+  exists r', In r' (parse V R clean_any strictext refuse dec x ac io version) /\
+             (r = r' \/ exists e, r = Exc e S_lib /\ subclass e K_InvalidValueError = true /\
+                                  r' = Exc (Known K_InvalidValueError) S_lib).
+Proof.
+  intros fuel V R classes strictext refuse dec x ac io version r Hr.
+  exact (cov_parse V R _ _ strictext refuse (cov_clean_struct_any fuel V R strictext classes) dec x ac io version r Hr).
+Qed.
+Print Assumptions structural_model_refines_coarse.
 
 (* the class tables generated from the live classes contain no hook the model does not know *)
 Theorem live_registry_known : reg_known live = true /\ forallb (fun kc => cls_known (snd kc)) all_classes = true.
@@ -191,8 +220,8 @@ Print Assumptions store_add_list_effect.
 (* hypotheses are satisfiable / the statements are not vacuous *)
 Example repaired_all_guarded : all_guarded repaired.
 Proof. intros s. reflexivity. Qed.
-Example blackbox_exists : exists cl : blackbox, forall io n v e, cl io n v = CleanRaise e -> is_exception e = true.
-Proof. exists (fun _ _ _ => CleanRaise (Derived 7 (Known K_RecursionError))). intros io n v e H. inversion H. reflexivity. Qed.
+Example blackbox_exists : exists cl : blackbox, forall ac io s ov e, cl ac io s ov = CleanRaise e -> is_exception e = true.
+Proof. exists (fun _ _ _ _ => CleanRaise (Derived 7 (Known K_RecursionError))). intros ac io s ov e H. inversion H. reflexivity. Qed.
 Example recursion_error_is_wrapped :
   check_property_wrapper (CleanRaise (Known K_RecursionError)) = Exc (Known K_InvalidValueError) S_lib.
 Proof. reflexivity. Qed.
